@@ -160,6 +160,9 @@ Variable A : nat.
 Variable outer : nat -> presult (list bp_tree).
 Variable cnt : nat.
 Hypothesis Houter : forall j, j <= n -> n < cnt + j + A -> bp_good A j n (outer j).
+Variable outer_blk : bytes -> option (nat -> presult (list bp_tree)).
+Hypothesis Houter_blk : forall nm o, outer_blk nm = Some o ->
+  forall j, j <= n -> n < cnt + j + A -> bp_good A j n (o j).
 
 Ltac bp_outer_case :=
   match goal with
@@ -183,8 +186,19 @@ Proof. intros. unfold bp_parse_set. bp_unfold. bp_go fail. Qed.
 Lemma bp_import_good i : 2 <= i -> i <= n -> bp_good A i n (bp_parse_import skip toks i).
 Proof. intros. unfold bp_parse_import. bp_unfold. bp_go fail. Qed.
 
-Lemma bp_block_good i : 2 <= i -> i <= n -> n < cnt + i + A -> bp_good A i n (bp_parse_block toks outer i).
-Proof. intros. unfold bp_parse_block. bp_unfold. bp_go fail. Qed.
+Lemma bp_block_good i : 2 <= i -> i <= n -> n < cnt + i + A -> bp_good A i n (bp_parse_block toks outer_blk i).
+Proof.
+  intros. unfold bp_parse_block. bp_unfold.
+  bp_go ltac:(idtac; match goal with
+    | |- context [match outer_blk ?nm with _ => _ end] =>
+        let Eo := fresh "Eo" in let o := fresh "o" in
+        destruct (outer_blk nm) as [o|] eqn:Eo; [pose proof (Houter_blk _ _ Eo)|]
+    | Hb : forall j, j <= n -> n < cnt + j + A -> bp_good A j n (?o j) |- context [match ?o ?j with _ => _ end] =>
+        let R := fresh "R" in let j' := fresh "j" in let b := fresh "b" in
+        assert (R : bp_good A j n (o j)) by (apply Hb; lia);
+        destruct (o j) as [j' b| |[|]|]; cbn [bp_good] in R; try contradiction; bp_prune
+    end).
+Qed.
 
 Lemma bp_apply_good i : 2 <= i -> i <= n -> n < cnt + i + A -> bp_good A i n (bp_parse_apply toks outer i).
 Proof. intros. unfold bp_parse_apply. bp_unfold. bp_go fail. Qed.
@@ -357,7 +371,7 @@ Proof.
   bp_go ltac:(idtac; match goal with |- bp_good _ _ _ (bp_verb_loop _ _ _) => bp_use bp_verb_loop_good end).
 Qed.
 
-Lemma bp_run_good h i : 2 <= i -> i <= n -> n < cnt + i + A -> bp_good A i n (bp_run skip toks outer h cnt i).
+Lemma bp_run_good h i : 2 <= i -> i <= n -> n < cnt + i + A -> bp_good A i n (bp_run skip toks outer outer_blk h cnt i).
 Proof.
   intros. destruct h; cbn [bp_run];
     first [ apply bp_if_good | apply bp_for_good | apply bp_block_good | apply bp_extends_good | apply bp_include_good
@@ -367,9 +381,9 @@ Qed.
 End WithOuter.
 
 (* ---- parseOuterTemplate: every loop iteration consumes a token or returns *)
-Lemma bp_outer_good A : forall fuel i, i <= n -> n < fuel + i + A -> bp_good A i n (bp_outer skip toks fuel i).
+Lemma bp_outer_good A : forall fuel opn i, i <= n -> n < fuel + i + A -> bp_good A i n (bp_outer skip toks fuel opn i).
 Proof.
-  induction fuel as [|f IH]; intros i Hi Hf; cbn [bp_outer]; [cbn [bp_good]; lia|].
+  induction fuel as [|f IH]; intros opn i Hi Hf; cbn [bp_outer]; [cbn [bp_good]; lia|].
   destruct (tok_at toks i) as [t|] eqn:E; [|cbn [bp_good]; lia].
   pose proof (tok_some_lt _ _ E) as Hlt.
   destruct (t_kind t) eqn:K;
@@ -386,9 +400,13 @@ Proof.
     assert (S (S i) < n) by (apply (tok_not_eof_lt _ _ En); intro K'; rewrite K' in Kn; discriminate).
     destruct (bp_is_end_tag (t_val nm)); [cbn [bp_good]; lia|].
     destruct (bp_dispatch (t_val nm)) as [h|]; [|exact I].
-    assert (R : bp_good A (S (S i)) n (bp_run skip toks (bp_outer skip toks f) h f (S (S i)))).
-    { apply bp_run_good; try lia. intros j Hj Hfj. apply IH; lia. }
-    unfold bp_bind. destruct (bp_run skip toks (bp_outer skip toks f) h f (S (S i))) as [j nd| |[|]|];
+    set (ob := fun name => if existsb (bytes_eqb name) opn then None else Some (bp_outer skip toks f (name :: opn))).
+    assert (R : bp_good A (S (S i)) n (bp_run skip toks (bp_outer skip toks f opn) ob h f (S (S i)))).
+    { apply bp_run_good; try lia.
+      - intros j Hj Hfj. apply IH; lia.
+      - intros nm0 o Ho j Hj Hfj. unfold ob in Ho. destruct (existsb (bytes_eqb nm0) opn); [discriminate|].
+        inversion Ho; subst o. apply IH; lia. }
+    unfold bp_bind. destruct (bp_run skip toks (bp_outer skip toks f opn) ob h f (S (S i))) as [j nd| |[|]|];
       cbn [bp_good] in R |- *; try first [exact I | contradiction | lia].
     apply bp_good_cons with (lo := j); [apply IH; lia | lia].
   - (* comment *)
@@ -412,30 +430,34 @@ Proof.
     assert (S (S i) < n) by (apply (tok_not_eof_lt _ _ En); intro K'; rewrite K' in Kn; discriminate).
     destruct (bp_is_end_tag (t_val nm)); [cbn [bp_good]; lia|].
     destruct (bp_dispatch (t_val nm)) as [h|]; [|exact I].
-    assert (R : bp_good A (S (S i)) n (bp_run skip toks (bp_outer skip toks f) h f (S (S i)))).
-    { apply bp_run_good; try lia. intros j Hj Hfj. apply IH; lia. }
-    unfold bp_bind. destruct (bp_run skip toks (bp_outer skip toks f) h f (S (S i))) as [j nd| |[|]|];
+    set (ob := fun name => if existsb (bytes_eqb name) opn then None else Some (bp_outer skip toks f (name :: opn))).
+    assert (R : bp_good A (S (S i)) n (bp_run skip toks (bp_outer skip toks f opn) ob h f (S (S i)))).
+    { apply bp_run_good; try lia.
+      - intros j Hj Hfj. apply IH; lia.
+      - intros nm0 o Ho j Hj Hfj. unfold ob in Ho. destruct (existsb (bytes_eqb nm0) opn); [discriminate|].
+        inversion Ho; subst o. apply IH; lia. }
+    unfold bp_bind. destruct (bp_run skip toks (bp_outer skip toks f opn) ob h f (S (S i))) as [j nd| |[|]|];
       cbn [bp_good] in R |- *; try first [exact I | contradiction | lia].
     apply bp_good_cons with (lo := j); [apply IH; lia | lia].
 Qed.
 
 (* index safety: no fuel whatever makes the model index the token list out of range *)
-Lemma bp_index_safe : forall fuel i, i <= n -> forall r, bp_outer skip toks fuel i = r -> r <> PPanic PTokIndex.
+Lemma bp_index_safe : forall fuel opn i, i <= n -> forall r, bp_outer skip toks fuel opn i = r -> r <> PPanic PTokIndex.
 Proof.
-  intros fuel i Hi r Hr. pose proof (bp_outer_good (S n) fuel i Hi ltac:(lia)) as G. rewrite Hr in G.
+  intros fuel opn i Hi r Hr. pose proof (bp_outer_good (S n) fuel opn i Hi ltac:(lia)) as G. rewrite Hr in G.
   intro Hp. rewrite Hp in G. exact G.
 Qed.
 
 (* termination: fuel length + 1 is enough from index 0 (and n + 1 - i from index i) *)
-Lemma bp_fuel_bound : forall fuel i, i <= n -> n < fuel + i -> bp_outer skip toks fuel i <> PFuel.
+Lemma bp_fuel_bound : forall fuel opn i, i <= n -> n < fuel + i -> bp_outer skip toks fuel opn i <> PFuel.
 Proof.
-  intros fuel i Hi Hf Hp. pose proof (bp_outer_good 0 fuel i Hi ltac:(lia)) as G. rewrite Hp in G.
+  intros fuel opn i Hi Hf Hp. pose proof (bp_outer_good 0 fuel opn i Hi ltac:(lia)) as G. rewrite Hp in G.
   cbn [bp_good] in G. lia.
 Qed.
 
-Lemma bp_result_bounds : forall fuel i j ns, i <= n -> bp_outer skip toks fuel i = POk j ns -> i <= j <= n.
+Lemma bp_result_bounds : forall fuel opn i j ns, i <= n -> bp_outer skip toks fuel opn i = POk j ns -> i <= j <= n.
 Proof.
-  intros fuel i j ns Hi Hr. pose proof (bp_outer_good (S n) fuel i Hi ltac:(lia)) as G. rewrite Hr in G. exact G.
+  intros fuel opn i j ns Hi Hr. pose proof (bp_outer_good (S n) fuel opn i Hi ltac:(lia)) as G. rewrite Hr in G. exact G.
 Qed.
 End Safety.
 
@@ -446,15 +468,15 @@ From Twig Require Import Proofs.BlockParserSkipProofs.
 Lemma C05_block_parser_index_safe_proof :
   forall (skip : list token -> nat -> option nat) (toks : list token),
     bp_expr_spec skip -> bp_ends_in_eof toks ->
-    forall fuel i, i <= length toks -> bp_outer skip toks fuel i <> PPanic PTokIndex.
-Proof. intros skip toks Hs He fuel i Hi. eapply bp_index_safe; eauto. Qed.
+    forall fuel opn i, i <= length toks -> bp_outer skip toks fuel opn i <> PPanic PTokIndex.
+Proof. intros skip toks Hs He fuel opn i Hi. eapply bp_index_safe; eauto. Qed.
 
 Lemma C05_block_parser_fuel_bound_proof :
   forall (skip : list token -> nat -> option nat) (toks : list token),
     bp_expr_spec skip -> bp_ends_in_eof toks ->
     bp_parse skip toks <> PFuel /\
-    (forall fuel i, i <= length toks -> length toks < fuel + i -> bp_outer skip toks fuel i <> PFuel) /\
-    (forall fuel i j ns, i <= length toks -> bp_outer skip toks fuel i = POk j ns -> i <= j <= length toks).
+    (forall fuel opn i, i <= length toks -> length toks < fuel + i -> bp_outer skip toks fuel opn i <> PFuel) /\
+    (forall fuel opn i j ns, i <= length toks -> bp_outer skip toks fuel opn i = POk j ns -> i <= j <= length toks).
 Proof.
   intros skip toks Hs He. split; [|split].
   - unfold bp_parse. apply bp_fuel_bound; auto; lia.
